@@ -92,8 +92,47 @@ def do_verify(sid, suite=False, checks=()):
     print(json.dumps(res, indent=1)[:3000])
 
 
+def do_report():
+    """Markdown table of all seeded changes and what caught them; written into DESIGN.md between the SENSITIVITY markers."""
+    rows = []
+    for d in sorted((VERIF / "seeded").iterdir()):
+        mp = d / "meta.json"
+        if not mp.exists():
+            continue
+        m = json.loads(mp.read_text())
+        c = m.get("confirmed", {})
+        files = ", ".join(Path(f).name for f in (m.get("files") or []))
+        summ = re.sub(r"\s+", " ", (m.get("summary") or ""))[:150].replace("|", "/")
+        needs = re.sub(r"\s+", " ", (m.get("needs") or ""))[:170].replace("|", "/")
+        if m.get("status"):
+            verdict = "not counted: " + m["status"][:110]
+        else:
+            parts = []
+            for k, v in (c.get("checks") or {}).items():
+                parts.append(f"{k} quick: {'**caught**' if v.get('exit') == 1 else ('harness error' if v.get('exit') == 2 else '**missed**')} ({v.get('wall_s')} s)")
+            verdict = "; ".join(parts) or "not yet run"
+            if m.get("note"):
+                verdict += " - " + m["note"]
+        ok = c.get("demo_without_patch", {}).get("exit") == 0 and c.get("demo_with_patch", {}).get("exit") not in (0, None)
+        suite = ((c.get("suite_with_patch") or {}).get("summary") or "not run")
+        rows.append(f"| {m['seed_id']} | {files} | {summ} | {needs} | demo {'ok/fails' if ok else 'NOT CONFIRMED'}; suite {suite} | {verdict} |")
+    table = ("| seed | file(s) | change | needs | confirmed (demo without/with patch; repository suite with patch) | result against the quick tier |\n"
+             "|---|---|---|---|---|---|\n" + "\n".join(rows))
+    dp = VERIF / "DESIGN.md"
+    text = dp.read_text()
+    b, e = "<!-- SENSITIVITY:BEGIN -->", "<!-- SENSITIVITY:END -->"
+    if b in text and e in text:
+        text = text[: text.index(b) + len(b)] + "\n" + table + "\n" + text[text.index(e):]
+        dp.write_text(text)
+        print("DESIGN.md updated,", len(rows), "rows")
+    else:
+        print(table)
+
+
 if __name__ == "__main__":
-    if sys.argv[1] == "import":
+    if sys.argv[1] == "report":
+        do_report()
+    elif sys.argv[1] == "import":
         do_import(sys.argv[2], sys.argv[3], sys.argv[4])
     elif sys.argv[1] == "verify":
         sid = sys.argv[2]
